@@ -24,16 +24,19 @@ def has_alt_names(tables):
     return any(r["alts"] for k in Q.KINDS for r in tables[k])
 
 
-def case_for(cid, r, fpath, base_path):
+def case_for(cid, r, ftext, base_path):
+    """ftext: the file's bytes as latin-1 text (the driver turns it into a memory file), or a path for real files"""
     setup = []
     if r["pre"] == "base":
         setup += [["db", base_path], ["touch"]]
     kind = r["kind"]
-    if kind in ("ok", "major2", "major4", "minor4", "ext"):
-        setup.append(["db", fpath])
+    if kind == "ext":
+        setup.append(["db", ftext])
+    elif kind in ("ok", "major2", "major4", "minor4"):
+        setup.append(["dbmem", ftext])
     else:
         num = r["next"] - r["first"]
-        setup.append(["mod", {"id": r["defid"], "dbfile": fpath, "first": 1 if num else 0, "next": 1 + num if num else 0}])
+        setup.append(["mod", {"id": r["defid"], "dbmem": ftext, "first": 1 if num else 0, "next": 1 + num if num else 0}])
     h = r["hdrs"]
     queries = [["c", "interrogate_number_of_types"], ["c", "interrogate_error_flag"], ["dump", r["gnext"] + 1, r["maxpos"]]]
     if r["err"] and (r["cut"] == -1 or r["content"]) and kind != "idmismatch":
@@ -121,19 +124,17 @@ def run_check(ctx):
                        "base); non-trivial = the file holds at least one record, or is damaged or cut")
 
     # ---- replay of the generated files ---------------------------------------------------
-    fdir = os.path.join(ctx.tmp, "files")
-    os.makedirs(fdir)
     whole = {}
     cases, index = [], {}
     distinct = set()
     for cid, r in enumerate(recs):
-        r["maxpos"] = MAXPOS
+        # a file that must be rejected whole: the one-argument functions (names, flags, counts) of every index
+        # show whether anything of it became visible; the positional accessors are not needed for that
+        r["maxpos"] = 0 if (r["cut"] != -1 and r["content"]) else MAXPOS
         fb = bytes(r["file"])
-        fpath = os.path.join(fdir, "%d.in" % cid)
-        open(fpath, "wb").write(fb)
         if r["cut"] == -1 and r["kind"] == "ok":
             whole[(r["pre"], fb)] = r
-        cases.append(case_for(cid, r, fpath, base_path))
+        cases.append(case_for(cid, r, fb.decode("latin-1"), base_path))
         index[str(cid)] = r
         if r["nrec"] or r["kind"] != "ok" or r["cut"] != -1:
             distinct.add((fb, r["kind"], r["pre"]))
@@ -243,10 +244,8 @@ def replay_real(ctx, table, real):
         stride = 1 if n <= 700 else max(1, n // (150 if ctx.tier == "quick" else 1500))
         for cut in list(range(0, n, stride)) + [n - 1, n - 2]:
             if 0 <= cut < n:
-                p = x["path"] + ".cut%d" % cut
-                open(p, "wb").write(x["bytes"][:cut])
                 pc = "cut-%s-%d" % (x["name"], cut)
-                cases.append({"id": pc, "setup": [["db", p]],
+                cases.append({"id": pc, "setup": [["dbmem", x["bytes"][:cut].decode("latin-1")]],
                               "queries": [["c", "interrogate_number_of_types"], ["c", "interrogate_error_flag"],
                                           ["dump", r["gnext"] + 1, 2], ["c", "interrogate_number_of_functions"]]})
                 index[pc] = (x, cut)
